@@ -18,7 +18,10 @@ META = {
                   "of the solvers is involved.",
     "level_note": "The theorem is unbounded; the implementation side is exercised on a finite seeded case stream, so "
                   "absence of a contradiction is established only for the cases run.  Lifetime constraints are not "
-                  "compared (as the property states).  Cases where a solver dies (CPU limit, native stack overflow, "
+                  "compared (as the property states); in the main stage every lifetime of a substitution is mapped to one "
+                  "constant, and a separate lifetime stage (checks/c04_lt.py: lifetime-parameterised traits/ADTs, goals "
+                  "with lifetime unknowns) compares substitutions with structural lifetimes whenever no Unique answer "
+                  "involved carries region constraints.  Cases where a solver dies (CPU limit, native stack overflow, "
                   "panic) are not comparable and are counted separately.",
     "design_ref": "DESIGN.md §4 C04",
     "bins": ["solve"],
@@ -259,10 +262,16 @@ def run(ctx):
     ctx.cov["known_class_forgiven_alarms"] = ctx.cov.get("known_class_hits", 0)
     ctx.cov["known_class_share"] = round(sum(1 for c in cc if c & 5) / n, 4)
     ctx.cov["inconclusive"] = sum(not_compared.values())
+    # lifetime stage: substitutions with structural lifetimes (answers without region constraints)
+    from checks import c04_lt
+    c04_lt.stage(ctx)
 
 
 def replay(ctx, obj):
     core.build_harness(bins=["solve"])
+    if obj.get("kind") == "incompatible-answers-lifetimes":
+        from checks import c04_lt
+        return c04_lt.replay(ctx, obj)
     it = sc.Item(0, None, obj["program"], None, obj["goal"], obj.get("shape", "replay"), "replay")
     sc.run_items([it], cpu=10, dump_check=False)
     a1, a2 = it.answers["slg"][1], it.answers["rec"][1]
